@@ -69,8 +69,13 @@ def abs_value(v, memo=None, depth=0):
         if v.dtype == object:
             return ["obj", me, tname(t), ["objarray", list(v.shape), [abs_value(x, memo, depth + 1) for x in v.ravel(order="C").tolist()]]]
         order = "F" if (v.flags.f_contiguous and not v.flags.c_contiguous) else "C"
+        if v.dtype.names:
+            # structured arrays (sklearn Tree nodes): alignment padding is uninitialised memory, compare the fields only
+            raw = b"".join(np.ascontiguousarray(v[n]).tobytes() for n in v.dtype.names)
+        else:
+            raw = np.ascontiguousarray(v).tobytes()
         return ["obj", me, tname(t), ["array", v.dtype.str, str(v.dtype.descr) if v.dtype.names else "", list(v.shape), order,
-                                      np.ascontiguousarray(v).tobytes().hex() if v.size < 4096 else hash(np.ascontiguousarray(v).tobytes())]]
+                                      raw.hex() if v.size < 4096 else hash(raw)]]
     if sp is not None and sp.issparse(v):
         c = v.tocoo()
         return ["obj", me, tname(t), ["sparse", v.format, list(v.shape), v.dtype.str,
